@@ -5,6 +5,8 @@
 //verif:cover VerifC07Bundles leftover-skipped three-bundles page-size-1
 //verif:cover VerifC07Repos prefix-named-repos
 //verif:cover VerifC07Labels three-labels
+//verif:assume listings under faults: a fixed world (repos r, r2, ab; in r two bundles, two labels, two diamonds running+done, two splits running+done), every kind of listing with a solver-chosen page size 1..5 and one transient fault at a solver-chosen store call of the listing (listing pages and descriptor reads)
+//verif:cover VerifC07ListFaults listing-page-failed descriptor-read-failed reported-failure
 //verif:cover VerifC07Diamonds done-diamond split-file-lists-present done-split page-size-1 start-times-against-id-order
 package core
 
@@ -276,4 +278,71 @@ func VerifC07Diamonds() {
 			vAssert(gs[0].SplitID == first, "splits-of-a-page-ordered-by-start-time")
 		}
 	}
+}
+
+// VerifC07ListFaults: one transient store fault at any store call of a listing: the listing terminates and either
+// reports the failure or returns the complete result; it never returns a silently truncated list.
+func VerifC07ListFaults() {
+	vBudget(300000000)
+	vUnwind(100000)
+	vTerminates()
+	meta := newVStore("meta")
+	stores := vCtxStoresAll(meta, meta, newVStore("blob"))
+	for _, r := range []string{"r", "r2", "ab"} {
+		vPutRepo(meta, r)
+	}
+	vPutBundle(meta, "r", vB1, 1, true)
+	vPutBundle(meta, "r", vB2, 1, true)
+	for _, l := range []string{"l1", "l2"} {
+		meta.putRaw(model.GetArchivePathToLabel("r", l), vYaml(model.LabelDescriptor{Name: l, BundleID: vB1}))
+	}
+	for _, d := range []string{vD1, vD2} {
+		meta.putRaw(model.GetArchivePathToInitialDiamond("r", d), vYaml(model.DiamondDescriptor{DiamondID: d, State: model.DiamondInitialized}))
+		meta.putRaw(model.GetArchivePathToFinalDiamond("r", d), vYaml(model.DiamondDescriptor{DiamondID: d, State: model.DiamondDone}))
+	}
+	for _, sid := range []string{"s1", "s2"} {
+		meta.putRaw(model.GetArchivePathToInitialSplit("r", vD1, sid), vYaml(model.SplitDescriptor{SplitID: sid, State: model.SplitRunning, GenerationID: vG1}))
+		meta.putRaw(model.GetArchivePathToFinalSplit("r", vD1, sid), vYaml(model.SplitDescriptor{SplitID: sid, State: model.SplitDone, GenerationID: vG1}))
+	}
+	page := vInt("pageSize", 1, 5)
+	kind := vChoose("listing", 5)
+	cr := &vCrasher{stores: []*vStore{meta}, allCalls: true, transient: true}
+	cr.crashAt = vInt("faultAt", 1, 14)
+	cr.install()
+	n, want := 0, 0
+	var err error
+	switch kind {
+	case 0:
+		var got model.BundleDescriptors
+		got, err = ListBundles("r", stores, BatchSize(page))
+		n, want = len(got), 2
+	case 1:
+		var got []model.RepoDescriptor
+		got, err = ListRepos(stores, BatchSize(page))
+		n, want = len(got), 3
+	case 2:
+		var got []model.LabelDescriptor
+		got, err = ListLabels("r", stores, BatchSize(page))
+		n, want = len(got), 2
+	case 3:
+		var got model.DiamondDescriptors
+		got, err = ListDiamonds("r", stores, BatchSize(page))
+		n, want = len(got), 2
+	default:
+		err = ListSplitsApply("r", vD1, stores, func(model.SplitDescriptor) error { n++; return nil }, BatchSize(page))
+		want = 2
+	}
+	cr.revive()
+	vAssume(cr.crashed)
+	if len(cr.at) > 4 && cr.at[:4] == "list" {
+		vCover("listing-page-failed")
+	}
+	if len(cr.at) > 3 && cr.at[:3] == "get" {
+		vCover("descriptor-read-failed")
+	}
+	if err != nil {
+		vCover("reported-failure")
+		return
+	}
+	vAssert(n == want, "listing-that-reports-success-is-complete")
 }
